@@ -19,6 +19,7 @@ package structs
 
 import (
 	"bytes"
+	"strings"
 
 	"github.com/siglens/siglens/pkg/config"
 	. "github.com/siglens/siglens/pkg/segment/utils"
@@ -317,7 +318,7 @@ func (query *SearchQuery) GetAllBlockBloomKeysToSearch() (map[string]bool, map[s
 
 	if query.MatchFilter != nil {
 		matchKeys, originalMatchKeys, wildcardExists, matchOp := query.MatchFilter.GetAllBlockBloomKeysToSearch(query.FilterIsCaseInsensitive)
-		return matchKeys, originalMatchKeys, wildcardExists, matchOp
+		return getWordsOfBloomKeys(matchKeys), originalMatchKeys, wildcardExists, matchOp
 	} else {
 		blockBloomKeys, originalBlockBloomKeys, wildcardExists, err := query.ExpressionFilter.GetAllBlockBloomKeysToSearch(query.FilterIsCaseInsensitive)
 		if err != nil {
@@ -325,6 +326,20 @@ func (query *SearchQuery) GetAllBlockBloomKeysToSearch() (map[string]bool, map[s
 		}
 		return blockBloomKeys, originalBlockBloomKeys, wildcardExists, And
 	}
+}
+
+// The block bloom has every value as a whole and each of its space separated words, but not the
+// sequences of words inside a longer value. So a phrase of several words is looked up word by word.
+func getWordsOfBloomKeys(bloomKeys map[string]bool) map[string]bool {
+	wordKeys := make(map[string]bool)
+	for key := range bloomKeys {
+		for _, word := range strings.Split(key, " ") {
+			if word != "" {
+				wordKeys[word] = true
+			}
+		}
+	}
+	return wordKeys
 }
 
 func (query *SearchQuery) ExtractRangeFilterFromQuery(qid uint64) (map[string]string, FilterOperator, bool) {
